@@ -34,6 +34,9 @@
 ; facts about slice contents have a trigger that does not mention the slice offset)
 (declare-fun el8 (ByteArr Slice Int) (_ BitVec 8))
 (assert (forall ((m ByteArr) (s Slice) (k Int)) (! (= (el8 m s k) (select m (+ (sl.off s) k))) :pattern ((el8 m s k)))))
+; the same accessor for string slices (declared here, not on demand, so that spec files can name it in patterns)
+(declare-fun elem!Str ((Array Int Str) Slice Int) Str)
+(assert (forall ((m (Array Int Str)) (s Slice) (k Int)) (! (= (elem!Str m s k) (select m (+ (sl.off s) k))) :pattern ((elem!Str m s k)))))
 ; s_of a off len : the string holding the bytes a[off .. off+len) of one backing array
 (declare-fun s_of ((Array Int (_ BitVec 8)) Int Int) Str)
 (assert (forall ((m (Array Int (_ BitVec 8))) (o Int) (n Int)) (! (=> (>= n 0) (= (s_len (s_of m o n)) n)) :pattern ((s_of m o n)))))
